@@ -3,7 +3,7 @@
 // Included automatically in every unit by engine/assemble.py (after `verus! {`), so that a change of the
 // real code that starts using one of them stays inside the verifier's reach instead of becoming "unsupported".
 // ---------------------------------------------------------------------------------
-//@trusted T2 core integer helpers: next_multiple_of, div_ceil, abs_diff, rem_euclid on u8/u16/u32/u64/usize are the mathematical functions of their documentation (next_multiple_of / div_ceil / rem_euclid require a non-zero divisor; next_multiple_of requires that the result fits, as overflow checks would panic)
+//@trusted T2 core integer helpers: next_multiple_of, div_ceil, abs_diff, rem_euclid, ilog2 (requires a non-zero argument: it panics on 0), is_power_of_two, leading_zeros on u8/u16/u32/u64/usize (u32::is_power_of_two / u32::leading_zeros are specified by the units that already used them) are the mathematical functions of their documentation (next_multiple_of / div_ceil / rem_euclid require a non-zero divisor; next_multiple_of requires that the result fits, as overflow checks would panic)
 pub open spec fn spec_next_multiple_of(a: int, b: int) -> int { if a % b == 0 { a } else { a + (b - a % b) } }
 pub open spec fn spec_div_ceil(a: int, b: int) -> int { a / b + (if a % b > 0 { 1int } else { 0int }) }
 pub open spec fn spec_abs_diff(a: int, b: int) -> int { if a >= b { a - b } else { b - a } }
@@ -37,3 +37,16 @@ pub assume_specification [u64::rem_euclid](a: u64, b: u64) -> (r: u64) requires 
 pub assume_specification [u32::rem_euclid](a: u32, b: u32) -> (r: u32) requires b > 0 ensures r == a % b;
 pub assume_specification [u16::rem_euclid](a: u16, b: u16) -> (r: u16) requires b > 0 ensures r == a % b;
 pub assume_specification [u8::rem_euclid](a: u8, b: u8) -> (r: u8) requires b > 0 ensures r == a % b;
+// ---- integer logarithm / power-of-two helpers (ilog2 panics on 0: a precondition) ----
+pub open spec fn spec_ilog2(x: int) -> int decreases x { if x <= 1 { 0 } else { 1 + spec_ilog2(x / 2) } }
+pub open spec fn spec_is_pow2(x: int) -> bool decreases x { if x <= 0 { false } else if x == 1 { true } else { x % 2 == 0 && spec_is_pow2(x / 2) } }
+pub assume_specification [u8::ilog2](x: u8) -> (r: u32) requires x > 0 ensures r == spec_ilog2(x as int), r <= 7;
+pub assume_specification [u16::ilog2](x: u16) -> (r: u32) requires x > 0 ensures r == spec_ilog2(x as int), r <= 15;
+pub assume_specification [u32::ilog2](x: u32) -> (r: u32) requires x > 0 ensures r == spec_ilog2(x as int), r <= 31;
+pub assume_specification [u64::ilog2](x: u64) -> (r: u32) requires x > 0 ensures r == spec_ilog2(x as int), r <= 63;
+pub assume_specification [usize::ilog2](x: usize) -> (r: u32) requires x > 0 ensures r == spec_ilog2(x as int), r <= 63;
+pub assume_specification [u8::is_power_of_two](x: u8) -> (r: bool) ensures r == spec_is_pow2(x as int);
+pub assume_specification [u16::is_power_of_two](x: u16) -> (r: bool) ensures r == spec_is_pow2(x as int);
+pub assume_specification [u64::is_power_of_two](x: u64) -> (r: bool) ensures r == spec_is_pow2(x as int);
+pub assume_specification [usize::is_power_of_two](x: usize) -> (r: bool) ensures r == spec_is_pow2(x as int);
+pub assume_specification [usize::leading_zeros](x: usize) -> (r: u32) ensures r <= 64, x == 0 <==> r == 64, x > 0 ==> r == 63 - spec_ilog2(x as int);
